@@ -16,8 +16,8 @@
    agrees with both on the same programs.  DESIGN's C03_circuit_of_ssa (gates
    of every instruction = its arithmetic meaning) is NOT proved here. *)
 From Coq Require Import ZArith NArith List Bool.
-From Mpc Require Import Gen.Consts Lang.Mini Lang.Ssa Lang.Lower Lang.LowerProof
-     Lang.RunC03 Lang.RunC03Proof.
+From Mpc Require Import Gen.Consts Gen.Thresholds Lang.Mini Lang.Ssa Lang.Lower Lang.LowerProof
+     Lang.RunC03 Lang.RunC03Proof Lang.CircGen Lang.CircGenProof Lang.CircGenCompose.
 Import ListNotations.
 
 (* FULL statement for the model.  For every Mini program p (any number of
@@ -122,3 +122,92 @@ Theorem C03_store_frame : forall tw off w a v i, (off + w <= tw)%nat ->
   N.testbit (store_sem tw off w a v) i = N.testbit (norm tw a) i.
 Proof. exact store_sem_frame. Qed.
 Print Assumptions C03_store_frame.
+
+(* ---------------------------------------------------------------------------
+   The SSA -> circuit step (compiler/ssa/circuitgen.go).  WHAT IS AND IS NOT PROVED.  Lang/CircGen.v is a Gallina model of
+   ssa.Program.CompileCircuit up to and including prog.Circuit(cc)
+   (compiler/ssa/circuitgen.go: operand wires from the wire allocator with the
+   constant cast, the switch over the opcodes, Ret; program.go: input wires and
+   DefineConstants) on top of the builder transcriptions of C07.  Proved here,
+   for the model: gate-by-gate evaluation of the generated gate list returns
+   exactly eval_ssa — for every program satisfying the executable side
+   conditions cg_wf, all widths, all inputs; composed with C03_lower_correct:
+   exactly exec_mini.  The model is tied to the Go code on every run
+   (harness/c03cg.go, modes 4/5 of run_c03): for the REAL SSA listing of every
+   generated program the model's gate list equals, gate for gate after canonical
+   wire renumbering, Compiler.Gates as it stands after prog.Circuit(cc) (before
+   the optimisation passes of C09 and Compiler.Compile), and its evaluation
+   equals the outputs of the real circuit; the value of cg_wf on the real
+   program is part of the compared observable.
+   PARTIAL: Lang/Ssa.v has no constructor for concat, bts, btc (and circ,
+   builtin): such instructions decode to Ounsupported, which cg_wf rejects and
+   circuit_of_ssa does not generate.  Every other opcode is covered, including
+   the four divisions with a zero divisor (Lang/CircGenDivProof.v re-proves
+   NewUDivider / NewIDivider for circuitgen's calling convention, nil quotient
+   or remainder); signed division for equal operand widths only (NewIDivider
+   zero-pads a narrower operand: finding F26).  Yao target (utils.NewParams);
+   the passes after circuitgen are C09's. *)
+
+(* For every SSA program p (any number of inputs and instructions, any widths)
+   that satisfies the executable predicate cg_wf (at least one input wire; per
+   instruction the operand count of its opcode and the width relations listed in
+   Lang/CircGen.v) and every input vector: evaluating the gates that
+   circuit_of_ssa emits for p, one by one in emission order, from the input
+   bits, yields on the output wires exactly the values eval_ssa p inp.
+   Unbounded: induction over the instruction list with the invariant "the wires
+   registered for every value defined so far carry its value", per opcode the
+   C07 builder theorem for every width; the emitted list is proved single
+   assignment and defined-before-use, so gate-by-gate evaluation is the unique
+   consistent valuation.  Opcodes covered: iadd uadd isub usub imult umult idiv
+   udiv imod umod (zero divisor included) band bor bxor bclr ilt ult ile ule igt
+   ugt ige uge eq neq and or not mov smov lshift rshift srshift slice amov index
+   phi, and ret. *)
+Theorem C03_circuitgen_correct_partial : forall p inp,
+  cg_wf p = true ->
+  eval_circuit (circuit_of_ssa p) (input_bits (sp_inputs p) inp) = eval_ssa p inp.
+Proof. exact circuitgen_correct_partial. Qed.
+Print Assumptions C03_circuitgen_correct_partial.
+
+(* The same for every value of Params.CircMultArrayTreshold (the Karatsuba /
+   array switch of NewMultiplier), with the threshold table regenerated from
+   circ_multiplier_params.go. *)
+Theorem C03_circuitgen_correct_any_threshold : forall thr p inp,
+  cg_wf p = true ->
+  eval_circuit (circuit_of_ssa_gen multiplierArrayTresholds thr false p) (input_bits (sp_inputs p) inp)
+  = eval_ssa p inp.
+Proof. exact circuitgen_correct_gen. Qed.
+Print Assumptions C03_circuitgen_correct_any_threshold.
+
+(* Source to gates: for every typed Mini program p whose lowering satisfies
+   cg_wf and every input vector, the generated circuit computes the outputs of
+   the reference interpreter. *)
+Theorem C03_compile_correct_partial : forall p inp,
+  typed p -> cg_wf (lower p) = true ->
+  eval_circuit (circuit_of_ssa (lower p)) (input_bits (sp_inputs (lower p)) inp) = exec_mini p inp.
+Proof. exact compile_correct_partial. Qed.
+Print Assumptions C03_compile_correct_partial.
+
+(* What cg_wf leaves out, as a statement: only the opcodes without a model
+   (concat bts btc circ builtin decode to Ounsupported). *)
+Theorem C03_cg_wf_excludes : forall i, cg_wf_instr i = true -> i_op i <> Ounsupported.
+Proof. exact cg_wf_instr_opcodes. Qed.
+Print Assumptions C03_cg_wf_excludes.
+
+(* Non-vacuity: a concrete program (signed compare, subtract, multiply, xor,
+   arithmetic shift, cast, run-time index, conditional early return; 24 SSA
+   instructions, 519 gates) meets both hypotheses ... *)
+Theorem C03_cg_example_hypotheses : typed ex_prog /\ cg_wf (lower ex_prog) = true.
+Proof. exact ex_hypotheses. Qed.
+Print Assumptions C03_cg_example_hypotheses.
+
+(* ... and its generated circuit, evaluated in the kernel, returns the reference
+   outputs on an input of either branch. *)
+Theorem C03_cg_example_runs :
+  (20 <= length (sp_code (lower ex_prog)))%nat /\
+  (300 <= length (cc_gates (circuit_of_ssa (lower ex_prog))))%nat /\
+  eval_circuit (circuit_of_ssa (lower ex_prog)) (input_bits [8; 8]%nat [100; 7]%N) = exec_mini ex_prog [100; 7]%N /\
+  exec_mini ex_prog [100; 7]%N = [93; 6; 0]%N /\
+  eval_circuit (circuit_of_ssa (lower ex_prog)) (input_bits [8; 8]%nat [200; 77]%N) = exec_mini ex_prog [200; 77]%N /\
+  exec_mini ex_prog [200; 77]%N = [208; 8; 1]%N.
+Proof. exact ex_runs. Qed.
+Print Assumptions C03_cg_example_runs.
